@@ -3034,7 +3034,7 @@ func (x *c09Ctx) ruleR7() {
 			c.Bad("C09.R7", cons, pos, "the entry for "+w.Term(st.key)+" is removed although "+why+handler+". History: a request (or any message handled here) that carries the id of a LIVE swap and is refused evicts that swap from the active map: it gets no more messages, payment notifications, chain callbacks or timeouts (GetActiveSwap fails) and its channel lock is gone, so a second swap can start on the channel")
 		}
 	}
-	c.AtLeast("C09.R7", "removal sites examined (a helper counts once per call)", total, 18)
+	c.AtLeast("C09.R7", "removal sites examined (a helper counts once per call)", total, 6)
 }
 
 // ---- R5 -----------------------------------------------------------------------------
